@@ -7,25 +7,31 @@ sys.path.insert(0, os.path.join(ROOT, "harness"))
 import common, envprops
 from common import Ctx
 
-argv = sys.argv[1:]
-if "--tier" in argv:
-    i = argv.index("--tier"); tier_arg = argv[i + 1]; argv = argv[:i] + argv[i + 2:]
-else:
-    tier_arg = "quick"
-args = [a for a in argv if not a.startswith("--")]
-tier = "thorough" if tier_arg == "thorough" else "quick"
-ads = envprops.load_adapters()
-pids = args or sorted(set().union(*[a.serves for a in ads.values()]) & {"C04", "C05", "C06", "C07", "C08", "C09", "C10", "C11", "C12"})
-for pid in pids:
-    if not hasattr(envprops, f"_{pid.lower()}"):
-        continue
-    ctx = Ctx(pid, tier, int(os.environ.get("VERIF_SEED", "0")))
-    t = time.time()
-    envprops.run(ctx, pid)
-    print(pid, "evals", ctx.evaluations, "nontrivial", len(ctx.nontrivial), "FAILURES", len(ctx.failures), "DISAGREEMENTS", len(ctx.disagreements), f"{time.time()-t:.1f}s")
-    for f in ctx.failures[:3]:
-        print("   F", f.env, f.kind, f.what[:300])
-    for d in ctx.disagreements[:3]:
-        print("   D", d["env"], d["what"][:300], str(d["case"])[:500])
-    if ctx.driver:
-        ctx.driver.close(); ctx.driver = None
+def main():
+    argv = sys.argv[1:]
+    if "--tier" in argv:
+        i = argv.index("--tier"); tier_arg = argv[i + 1]; argv = argv[:i] + argv[i + 2:]
+    else:
+        tier_arg = "quick"
+    args = [a for a in argv if not a.startswith("--")]
+    tier = "thorough" if tier_arg == "thorough" else "quick"
+    ads = envprops.load_adapters()
+    pids = args or sorted(set().union(*[a.serves for a in ads.values()]) & {"C04", "C05", "C06", "C07", "C08", "C09", "C10", "C11", "C12"})
+    for pid in pids:
+        if not hasattr(envprops, f"_{pid.lower()}"):
+            continue
+        ctx = Ctx(pid, tier, int(os.environ.get("VERIF_SEED", "0")))
+        t = time.time()
+        envprops.run(ctx, pid)
+        print(pid, "evals", ctx.evaluations, "nontrivial", len(ctx.nontrivial), "FAILURES", len(ctx.failures), "DISAGREEMENTS", len(ctx.disagreements), f"{time.time()-t:.1f}s")
+        for f in ctx.failures[:3]:
+            print("   F", f.env, f.kind, f.what[:300])
+        for d in ctx.disagreements[:3]:
+            print("   D", d["env"], d["what"][:300], str(d["case"])[:500])
+        if ctx.driver:
+            ctx.driver.close(); ctx.driver = None
+
+
+
+if __name__ == "__main__":
+    main()
